@@ -1,5 +1,5 @@
 """Regenerate the generated sections of DESIGN.md (between <!-- GEN:name --> ... <!-- /GEN:name --> markers):
-findings table, seeded-change table, per-property level table. Run with /venv/bin/python."""
+as-built per-property sections (from docs/asbuilt), findings table, seeded-change table, per-property level table. Run with /venv/bin/python."""
 import importlib
 import json
 import re
@@ -70,10 +70,17 @@ def level_table():
     return "\n".join(rows)
 
 
+def asbuilt():
+    out = []
+    for f in sorted((V / "docs" / "asbuilt").glob("C[0-9]*.md")):
+        out.append(f.read_text().strip())
+    return "\n\n".join(out)
+
+
 def main():
     p = V / "DESIGN.md"
     s = p.read_text()
-    for name, fn in (("findings", findings_table), ("seeded", seeded_table), ("levels", level_table)):
+    for name, fn in (("asbuilt", asbuilt), ("findings", findings_table), ("seeded", seeded_table), ("levels", level_table)):
         a, b = f"<!-- GEN:{name} -->", f"<!-- /GEN:{name} -->"
         if a in s and b in s:
             s = s[: s.index(a) + len(a)] + "\n" + fn() + "\n" + s[s.index(b):]
